@@ -361,8 +361,21 @@ where
     /// Returns a string reference to a slice of text as specified by the offset
     fn text_by_offset(&self, offset: &Offset) -> Result<&'store str, StamError> {
         //(utf8byte() is relative to this text selection on both ends)
-        let beginbyte = self.utf8byte(self.beginaligned_cursor(&offset.begin)?)?;
-        let endbyte = self.utf8byte(self.beginaligned_cursor(&offset.end)?)?;
+        let begin = self.beginaligned_cursor(&offset.begin)?;
+        let end = self.beginaligned_cursor(&offset.end)?;
+        if begin > self.textlen() {
+            return Err(StamError::CursorOutOfBounds(
+                offset.begin,
+                "Begin cursor is out of bounds (relative to the text selection)",
+            ));
+        } else if end > self.textlen() {
+            return Err(StamError::CursorOutOfBounds(
+                offset.end,
+                "End cursor is out of bounds (relative to the text selection)",
+            ));
+        }
+        let beginbyte = self.utf8byte(begin)?;
+        let endbyte = self.utf8byte(end)?;
         if endbyte < beginbyte {
             Err(StamError::InvalidOffset(
                 Cursor::BeginAligned(beginbyte),
@@ -540,8 +553,21 @@ where
     /// Returns a string reference to a slice of text as specified by the offset
     fn text_by_offset(&'slf self, offset: &Offset) -> Result<&'store str, StamError> {
         //(utf8byte() is relative to this text selection on both ends)
-        let beginbyte = self.utf8byte(self.beginaligned_cursor(&offset.begin)?)?;
-        let endbyte = self.utf8byte(self.beginaligned_cursor(&offset.end)?)?;
+        let begin = self.beginaligned_cursor(&offset.begin)?;
+        let end = self.beginaligned_cursor(&offset.end)?;
+        if begin > self.textlen() {
+            return Err(StamError::CursorOutOfBounds(
+                offset.begin,
+                "Begin cursor is out of bounds (relative to the text selection)",
+            ));
+        } else if end > self.textlen() {
+            return Err(StamError::CursorOutOfBounds(
+                offset.end,
+                "End cursor is out of bounds (relative to the text selection)",
+            ));
+        }
+        let beginbyte = self.utf8byte(begin)?;
+        let endbyte = self.utf8byte(end)?;
         if endbyte < beginbyte {
             Err(StamError::InvalidOffset(
                 Cursor::BeginAligned(beginbyte),
